@@ -1089,7 +1089,8 @@ def job_filter_timestamp_texts(tier, seed):
     instants -- every pair of canonical texts with 0..6 fraction digits (symbolic fields and digits)."""
     from stix2.datastore import filters as FL
     t0 = time.time()
-    is_ts_match = lambda fn: getattr(fn, "__self__", None) is FL._TIMESTAMP_RE and getattr(fn, "__name__", "") == "match"   # noqa: E731
+    ts_re = getattr(FL, "_TIMESTAMP_RE", None)          # (the recogniser of timestamp text; absent in trees that do not have one)
+    is_ts_match = lambda fn: ts_re is not None and getattr(fn, "__self__", None) is ts_re and getattr(fn, "__name__", "") in ("match", "fullmatch")   # noqa: E731
     stubs = {"__callables__": STUBS["__callables__"] + [(is_ts_match, lambda s: True)]}
     I = Interp(stubs)
     eng = Engine()
